@@ -69,7 +69,8 @@ def write_world(w, directory, img_dtype="float32", nodata_left=-9999, nodata_rig
             write_raster(mpath, (m == 2).astype(np.uint8) * 255, dtype="uint8", crs=crs, transform=tr)
             inp[side]["mask"] = mpath
         ipath = os.path.join(directory, f"{side}.tif")
-        write_raster(ipath, im, dtype=img_dtype, crs=crs, transform=tr, descriptions=names)
+        tr_side = geo.get("transform_right", tr) if (geo and side == "right") else tr
+        write_raster(ipath, im, dtype=img_dtype, crs=crs, transform=tr_side, descriptions=names)
         inp[side]["img"] = ipath
         inp[side]["nodata"] = nod
     dl = w["disp"]
